@@ -11,7 +11,7 @@ Fixpoint qprods (acc : Q) (fs : list Q) : list Q :=
 Theorem kaplan_wald_def g ro t xs :
   snd (kaplan_wald g ro t xs) = map (fun T => pvr (Fin T)) (qprods 1 (map (fun x => (1 - g) * x / t + g) xs)).
 Proof.
-  unfold kaplan_wald. cbv zeta. cbn [snd]. fold pvr.
+  unfold kaplan_wald. cbv zeta. cbn [snd]. rewrite kw_absorb_id. fold pvr.
   assert (G : forall fs acc, xcumprod (Fin acc) (map Fin fs) = map Fin (qprods acc fs)).
   { induction fs as [|f r IH]; intro acc; [reflexivity|]. cbn [map xcumprod xmul xred qprods]. f_equal. apply IH. }
   rewrite <- (map_map (fun x => (1 - g) * x / t + g) Fin), G, map_map. reflexivity.
@@ -23,7 +23,9 @@ Theorem kaplan_markov_def g ro t xs :
   0 < t + g -> Forall (fun x => 0 < x + g) xs ->
   snd (kaplan_markov g ro t xs) = map (fun h => cap1 (Fin h)) (qprods 1 (map (fun x => (t + g) / (x + g)) xs)).
 Proof.
-  intros Htg Hx. unfold kaplan_markov. cbv zeta. cbn [snd]. fold cap1.
+  intros Htg Hx. unfold kaplan_markov. cbv zeta. cbn [snd].
+  rewrite (km_absorb_id g t xs Htg) by (eapply Forall_impl; [|exact Hx]; intros x H0; cbv beta in *; lra).
+  fold cap1.
   assert (G : forall ys acc, Forall (fun x => 0 < x + g) ys ->
             xcumprod (Fin acc) (map (fun x => xdiv (Fin (t + g)) (Fin (x + g))) ys)
             = map Fin (qprods acc (map (fun x => (t + g) / (x + g)) ys))).
@@ -37,7 +39,7 @@ Qed.
    products of the ratios (x_i+g)/m_i (ratio 1 where m_i = 0 = x_i+g) — NNM_risk_kk.kk_terms_ok; restated here *)
 Theorem kaplan_kolmogorov_def n t g xs :
   kk_ok n t g (kinit) xs ->
-  kk_terms_from n (t + g) (0, 1%Z) (Fin 1) (map (fun x => x + g) xs) = map Fin (kTs n t g kinit xs).
+  kk_terms_from n (t + g) (0, 1%Z) false (Fin 1) (map (fun x => x + g) xs) = map Fin (kTs n t g kinit xs).
 Proof. intro H. exact (kk_terms_ok n t g xs kinit H). Qed.
 
 (* generalised SPRT: literally ALPHA with the fixed alternative eta_j = clip((N eta - S_j)/(N-j+1), 0, u) *)
